@@ -30,6 +30,7 @@
 import PercevalModel.Lemmas.C19
 import PercevalModel.Lemmas.C19TW
 import PercevalModel.Model.C19Crash
+import PercevalModel.Lemmas.C19Conc
 
 namespace PM.C19
 open PM.SM
@@ -721,6 +722,24 @@ theorem accepted_id_lost_when_crash_follows_answer :
     s.issued = [0] ∧ diskIds s = [0] ∧
     (crashAfterAnswer s 2).issued = [3, 0] ∧ diskIds (crashAfterAnswer s 2) = [0] := by decide
 
+/-- the same stopping point in a rerun with replacement and in the sequential mode (both are histories of the
+machine, so `crash_after_answer_loses_only_that_id` covers them): job 0 failed, its rerun is answered with identifier
+1 and the process dies before the write — the file still holds the failed job 0 (not retired: nothing replaced it
+on disk), identifier 1 is lost; sequential launch of two jobs, the first complete and saved, the process dies after
+the answer to the second — -/
+theorem accepted_id_lost_when_crash_follows_rerun_answer :
+    let s := exec (step fixed) (create fixed true)
+      [Op.add plainJob none, launchPar [.accept 0], .progress [.st .error], .launch true true false [] []]
+    diskIds s = [0] ∧ s.retired = [] ∧
+    (crashAfterAnswer s 0).issued = [1, 0] ∧ diskIds (crashAfterAnswer s 0) = [0] ∧
+    (crashAfterAnswer s 0).retired = [] := by decide
+
+theorem accepted_id_lost_when_crash_follows_sequential_answer :
+    let s := exec (step fixed) (create fixed true)
+      [Op.add plainJob none, .add plainJob none, .launch false false true [.accept 0] [.st .success]]
+    diskIds s = [0] ∧ (s.mem.map (·.st)) = [.success, .waiting] ∧
+    (crashAfterAnswer s 0).issued = [1, 0] ∧ diskIds (crashAfterAnswer s 0) = [0] := by decide
+
 /-! ## 9. torn writes: a crash (or an I/O error) *inside* one `PersistentData.write_file` call
 
 `_write_to_file` replaces the group file in place: `open(path, "wt")` truncates it, then the JSON text is written.
@@ -798,5 +817,71 @@ theorem reopen_after_crash_fails_for_in_place_write :
   decide
 
 end TW
+
+/-! ## 11. two `JobGroup` objects of one name alive at the same time
+
+`Model/C19Conc.lean`: each object has its own list, loaded once by its constructor; file, directory and server are
+shared; an action is (object, operation).  No operation reads the file again, so the exact law is a discipline:
+**an object that takes over after the other one acted must start by re-opening the group** (`disc`).  Under that
+discipline, for ALL histories, answers and stopping points, the two objects together are indistinguishable from ONE
+object performing the same operations — every theorem of sections 1–10 then speaks about the acting object.  Without
+it the last writer wins: a stale object's next write replaces the other's work, identifiers included (witnesses). -/
+namespace Conc
+
+/-- **handover_by_reopen_is_single_owner.**  State of the acting object (its memory, the file, the server, the ghost
+records) and the outputs of all operations are those of a single object performing the same operations. -/
+theorem handover_by_reopen_is_single_owner (dir : Bool) (hist : List Act) (hw : ∀ a ∈ hist, WFOp a.2)
+    (hd : disc false hist = true) :
+    (exec (step2 fixed) (init2 fixed dir) hist).cur = exec (step fixed) (create fixed dir) (hist.map (·.2)) ∧
+    (run (step2 fixed) (init2 fixed dir) hist).2 = (run (step fixed) (create fixed dir) (hist.map (·.2))).2 := by
+  have h := run_disc hist (init2 fixed dir) (create_inv dir) hw hd
+  exact ⟨congrArg Prod.fst h, congrArg Prod.snd h⟩
+
+/-- **disciplined_file_is_actor_memory.**  Under the discipline, after every history the file is exactly the image
+of the acting object's memory, re-opening yields its observable content, and every identifier the server issued to
+either object is in the file unless retired by a rerun. -/
+theorem disciplined_file_is_actor_memory (dir : Bool) (hist : List Act) (hw : ∀ a ∈ hist, WFOp a.2)
+    (hd : disc false hist = true) :
+    let s := (exec (step2 fixed) (init2 fixed dir) hist).cur
+    s.disk = some (s.mem.map toDict) ∧ Refines fixed s ∧ (∀ k ∈ s.issued, k ∉ s.retired → k ∈ diskIds s) := by
+  have hwo : ∀ op ∈ hist.map (·.2), WFOp op := by
+    intro op hop
+    obtain ⟨a, ha, rfl⟩ := List.mem_map.1 hop
+    exact hw a ha
+  simp only [(handover_by_reopen_is_single_owner dir hist hw hd).1]
+  exact ⟨disk_is_image_of_memory dir _ hwo, disk_refines_memory dir _ hwo, accepted_ids_survive_refusal dir _ hwo⟩
+
+/-- non-vacuity: a history in which the objects alternate, each re-opening when it takes over -/
+example : disc false [(false, Op.add plainJob none), (true, .reopen), (true, launchPar [.accept 0]), (false, .reopen),
+    (false, .progress [.st .success]), (true, .reopen), (true, .add plainJob none)] = true := by decide
+
+/-- **stale_object_write_loses_accepted_id** (the discipline is necessary; the code as it is): object B is
+constructed, object A adds a job and launches it — identifier 0 is in the file —, then B, without re-opening, adds a
+job: the file is the image of B's list, which is not A's, and identifier 0 is gone from it although nothing retired
+it.  Had B re-opened first, the file would hold both jobs. -/
+theorem stale_object_write_loses_accepted_id :
+    let t := exec (step2 fixed) (init2 fixed true)
+      [(true, Op.reopen), (false, .add plainJob none), (false, launchPar [.accept 0]), (true, .add plainJob none)]
+    let t' := exec (step2 fixed) (init2 fixed true)
+      [(true, Op.reopen), (false, .add plainJob none), (false, launchPar [.accept 0]), (true, .reopen),
+       (true, .add plainJob none)]
+    t.cur.issued = [0] ∧ t.cur.retired = [] ∧ diskIds t.cur = [] ∧
+    t.cur.disk = some (t.cur.mem.map toDict) ∧ (t.other.map (·.map (·.id))) = some [some 0] ∧
+    t.cur.mem.map (·.id) = [none] ∧
+    (t'.cur.disk.map (·.map (·.id))) = some [some 0, none] := by decide
+
+/-- the positive statements fail without the discipline -/
+theorem handover_without_reopen_fails :
+    ¬ ∀ (dir : Bool) (hist : List Act), (∀ a ∈ hist, WFOp a.2) →
+        ∀ k ∈ (exec (step2 fixed) (init2 fixed dir) hist).cur.issued,
+          k ∉ (exec (step2 fixed) (init2 fixed dir) hist).cur.retired →
+          k ∈ diskIds (exec (step2 fixed) (init2 fixed dir) hist).cur := by
+  intro h
+  have := h true [(true, Op.reopen), (false, .add plainJob none), (false, launchPar [.accept 0]),
+    (true, .add plainJob none)] (by simp [WFOp, WFJob, plainJob, launchPar]) 0
+  revert this
+  decide
+
+end Conc
 
 end PM.C19
